@@ -57,6 +57,8 @@ PLAN = {
             'thorough': [('life', None), ('idle_par', None), ('life_rand', 10000), ('fwd', 3000), ('timeout', None), ('nest', 4000), ('hist_rand', 2000)]},
     'C16': {'quick': [('life', None), ('life_rand', 400)],
             'thorough': [('life', None), ('life_rand', 15000)]},
+    'C17': {'quick': [('wal', 1200)],
+            'thorough': [('wal', 20000)]},
     'C18': {'quick': [('expect', 800)],
             'thorough': [('expect', 15000)]},
 }
@@ -67,13 +69,14 @@ OWN['C11'] += [('C01.missing', ('errors', 'errors_par')), ('C03.', ('errors', 'e
 OWN['C13'] += [('C01.', ('hist', 'hist_rand', 'capacity')), ('C03.', ('hist', 'hist_rand', 'capacity'))]
 OWN['C14'] += [('C03.', ('capacity', 'retry_dispatch')), ('C01.missing', ('capacity', 'retry_dispatch'))]
 OWN['C10'] += [('C01.missing', ('timeout', 'timeout_rand')), ('C15.hang', ('timeout', 'timeout_rand')), ('C08.result_changed', ('timeout', 'timeout_rand'))]
+OWN['C17'] += [('C01.', ('wal',)), ('C03.', ('wal',)), ('X.wal', ('wal',))]
 OWN['C07'] += [('Q.no_quiescence', ('fwd', 'fwd3'))]
 GENERIC = ('Q.', 'X.')
 
 # the monitor's counters that show a property's clauses were actually exercised (vacuity guard)
 GROUPS = {'C01': ['enter', 'end'], 'C02': ['enter'], 'C03': ['xawE'], 'C04': ['awE'], 'C05': ['nested_enter'], 'C06': ['nested_enter'],
           'C07': ['fwd'], 'C08': ['complete'], 'C09': ['disp', 'enter'], 'C10': ['timeout'], 'C11': ['raise'], 'C13': ['evict'],
-          'C14': ['rej'], 'C15': ['idleE'], 'C16': ['stopE'], 'C18': ['expE']}
+          'C14': ['rej'], 'C15': ['idleE'], 'C17': ['wal'], 'C16': ['stopE'], 'C18': ['expE']}
 
 
 def load_known():
